@@ -50,6 +50,8 @@ type world struct {
 	recvMu   sync.Mutex
 	recvGot  []quartz.ScheduledJob
 	recvDone chan struct{}
+	apiFaults bool               // random API sequences: queue faults (Push / Remove) inside API calls
+	details  []*quartz.JobDetail // every JobDetail object handed to a ScheduleJob call with a usable key, oldest first
 }
 
 // wopt: the configuration of a step world beyond queue variant and MisfiredChan capacity.
@@ -226,6 +228,8 @@ type op struct {
 	wait       time.Duration                   // F: the harness sleeps that long before the fetch (the clock passes an instant)
 	misFill    int                             // F, buffered MisfiredChan: 1 = the channel is full before the fetch, 2 = exactly one slot is free
 	late       func() op                       // the op is built when its turn comes (fire times placed relative to the clock of that moment)
+	note       string                          // A: a fact about the arguments that the command does not show (goes into the replay)
+	textFn     func() string                   // A: the command text is read off the arguments at the moment of the call (a re-used *JobDetail)
 }
 
 var noJob = &rjob{key: "-"}
@@ -267,12 +271,53 @@ func (w *world) opSchedule(name, group string, repl, susp bool, t *rtrig, jdNil 
 			o := quartz.NewDefaultJobDetailOptions()
 			o.Replace, o.Suspended = repl, susp
 			jd := quartz.NewJobDetailWithOptions(noJob, mkKey(name, group), o)
+			if jd.JobKey() != nil && jd.JobKey().Name() != "" {
+				w.details = append(w.details, jd)
+			}
 			var tr quartz.Trigger // a nil *rtrig must become a nil interface
 			if t != nil {
 				tr = t
 			}
 			return errClassW(w, s.ScheduleJob(jd, tr))
 		}}
+}
+
+// pickDetail returns an earlier JobDetail object: of the given key (oldest or newest one) or, with name "", the idx-th of all.
+func (w *world) pickDetail(name, group string, newest bool, idx int) *quartz.JobDetail {
+	if name == "" {
+		if len(w.details) == 0 {
+			return nil
+		}
+		return w.details[idx%len(w.details)]
+	}
+	var found *quartz.JobDetail
+	for _, d := range w.details {
+		if d.JobKey().Name() == name && d.JobKey().Group() == group {
+			found = d
+			if !newest {
+				break
+			}
+		}
+	}
+	return found
+}
+
+// opScheduleReuse: ScheduleJob with a *JobDetail object that an EARLIER ScheduleJob call was given (the same pointer; its
+// options are what they are now -- PauseJob / ResumeJob write the Suspended option of a registered detail), with trigger t.
+// The command is the ordinary one: the registry is keyed, so the expectation does not depend on the object's history.
+func (w *world) opScheduleReuse(jd *quartz.JobDetail, t *rtrig) op {
+	idx := 0
+	for i, d := range w.details {
+		if d == jd {
+			idx = i
+			break
+		}
+	}
+	return op{kind: 'A', note: fmt.Sprintf("reused-detail=#%d(the-same-*JobDetail-object-as-in-the-%d.ScheduleJob-call-with-a-usable-key)", idx, idx+1),
+		textFn: func() string {
+			return fmt.Sprintf("S %s %s %s %s %d", jd.JobKey().Name(), jd.JobKey().Group(), b01(jd.Options().Replace), b01(jd.Options().Suspended), t.id)
+		},
+		run: func(s quartz.Scheduler) string { return errClassW(w, s.ScheduleJob(jd, t)) }}
 }
 
 func errClassW(w *world, err error) string {
@@ -367,6 +412,9 @@ func (w *world) step(o op) (string, string, string) {
 	s := w.scheds[o.sched%len(w.scheds)]
 	w.calls = w.calls[:0]
 	extra := ""
+	if o.textFn != nil {
+		o.text = o.textFn()
+	}
 	recvReady := false
 	if o.kind == 'F' {
 		if o.wait > 0 {
@@ -487,7 +535,7 @@ func (w *world) step(o op) (string, string, string) {
 		} else if o.removeFail {
 			c = "AXR"
 		}
-		return fmt.Sprintf("%s %d %s", c, now, o.text), obs + " " + callsStr(w.calls), ""
+		return fmt.Sprintf("%s %d %s", c, now, o.text), obs + " " + callsStr(w.calls), o.note
 	case 'X':
 		return "X " + o.text, obs, ""
 	default:
@@ -561,6 +609,34 @@ func alphabet(size string) []protoOp {
 		trigs = []string{"si", "rx"}
 		opts = opts[:3]
 	}
+	if size == "reuse" {
+		// one key in full: fresh details (plain / Replace / Suspended), the OLDEST and the NEWEST earlier *JobDetail object of the key
+		// handed to ScheduleJob again (with a new trigger), delete / pause / resume; a second key to move other entries; clear
+		k := [2]string{"a", "default"}
+		for _, o := range opts[:3] {
+			o := o
+			out = append(out, protoOp{func(w *world) op { return w.opSchedule(k[0], k[1], o[0], o[1], trigMaker("si")(w), false) }})
+		}
+		for _, newest := range []bool{false, true} {
+			newest := newest
+			out = append(out, protoOp{func(w *world) op {
+				t := trigMaker("si")(w)
+				if jd := w.pickDetail(k[0], k[1], newest, 0); jd != nil {
+					return w.opScheduleReuse(jd, t)
+				}
+				return w.opSchedule(k[0], k[1], false, false, t, false)
+			}})
+		}
+		for _, c := range []byte{'D', 'P', 'R'} {
+			c := c
+			out = append(out, protoOp{func(w *world) op { return w.opKey(c, k[0], k[1]) }})
+		}
+		out = append(out,
+			protoOp{func(w *world) op { return w.opSchedule("a", "g", false, false, trigMaker("si")(w), false) }},
+			protoOp{func(w *world) op { return w.opKey('D', "a", "g") }},
+			protoOp{func(w *world) op { return w.opClear() }})
+		return out
+	}
 	if size == "extreme" || size == "extreme-started" { // fire times at the ends of int64 (scripted triggers)
 		keys = [][2]string{{"a", "default"}, {"a", "g"}}
 		trigs = []string{"mx", "m1", "mn", "xm"}
@@ -627,6 +703,7 @@ func runExhaustive(e *emitter, st *stats, size string, depth int, variants []str
 		if only < 0 || only == e.seq {
 			w := newWorld(variant, 4)
 			var cmds, obss []string
+			notes := ""
 			for _, i := range idx {
 				ntr := len(w.trigs)
 				o := alpha[i].mk(w)
@@ -635,7 +712,10 @@ func runExhaustive(e *emitter, st *stats, size string, depth int, variants []str
 					cmds = append(cmds, fmt.Sprintf("T %d %s", t.id, t.spec))
 					obss = append(obss, "ok")
 				}
-				c, ob, _ := w.step(o)
+				c, ob, ex := w.step(o)
+				if ex != "" {
+					notes += fmt.Sprintf(" [command %d: %s]", len(cmds)+1, ex)
+				}
 				cmds = append(cmds, c)
 				obss = append(obss, ob)
 				st.calls++
@@ -643,7 +723,7 @@ func runExhaustive(e *emitter, st *stats, size string, depth int, variants []str
 			reg := registry(w.scheds[0])
 			w.close()
 			st.absorb(w)
-			fmt.Fprintf(e.w, "Q %s ;; %s\t%s | %s\t#%d %s\n", w.qkind(), strings.Join(cmds, " ;; "), strings.Join(obss, " ;; "), reg, e.seq, variant)
+			fmt.Fprintf(e.w, "Q %s ;; %s\t%s | %s\t#%d %s\n", w.qkind(), strings.Join(cmds, " ;; "), strings.Join(obss, " ;; "), reg, e.seq, variant+notes)
 		}
 		e.seq++
 		st.sequences++
@@ -786,6 +866,13 @@ func (w *world) randomOp(r *rand.Rand, withFetch bool, base int64) op {
 			o = w.opSchedule("-empty-", group, false, false, t, false)
 		default:
 			o = w.opSchedule(name, group, r.Intn(3) == 0, r.Intn(4) == 0, t, false)
+			if t != nil && len(w.details) > 0 && r.Intn(5) == 0 { // an earlier *JobDetail object again: of this key, or any
+				jd := w.pickDetail(name, group, r.Intn(2) == 0, 0)
+				if jd == nil || r.Intn(3) == 0 {
+					jd = w.pickDetail("", "", false, r.Intn(1<<20))
+				}
+				o = w.opScheduleReuse(jd, t)
+			}
 		}
 	case pick < 77:
 		o = w.opKey('D', name, group)
@@ -803,7 +890,7 @@ func (w *world) randomOp(r *rand.Rand, withFetch bool, base int64) op {
 		o = w.opClear()
 	}
 	o.sched = r.Intn(2)
-	if withFetch && o.kind == 'A' { // a transient failure of the queue inside the call
+	if (withFetch || w.apiFaults) && o.kind == 'A' { // a transient failure of the queue inside the call
 		switch r.Intn(14) {
 		case 0:
 			o.pushFail = true
@@ -844,9 +931,12 @@ func runRandom(e *emitter, st *stats, r *rand.Rand, nseq, depth int, withFetch b
 			}
 			thr := wo.thr
 			w := newWorldOpt(variant, misCap, wo)
+			if !withFetch && variant[0] != 's' && rr.Intn(2) == 0 { // (a started loop pushes too: the fault must hit the API call)
+				w.apiFaults = true
+			}
 			var lines []string
 			lines = append(lines, fmt.Sprintf("# seq %d variant %s miscap %d%s thr %d retry %d", e.seq, variant, misCap,
-				map[bool]string{true: " listener", false: ""}[wo.recv], thr, wo.retry), "reset "+w.qkind()+"\tok")
+				map[bool]string{true: " listener", false: ""}[wo.recv], thr, wo.retry)+map[bool]string{true: " api-faults", false: ""}[w.apiFaults], "reset "+w.qkind()+"\tok")
 			stalled := false
 			for i := 0; i < depth; i++ {
 				ntr := len(w.trigs)
@@ -900,7 +990,7 @@ func runRandom(e *emitter, st *stats, r *rand.Rand, nseq, depth int, withFetch b
 // fixed scenarios aimed at the classification boundaries and at the pause/delete window
 // ---------------------------------------------------------------------------
 
-func runDirected(e *emitter, st *stats, only int) {
+func runDirected(e *emitter, st *stats, only int, onlyPrefix string) {
 	type sc struct {
 		name    string
 		run     func(w *world) []op
@@ -968,8 +1058,11 @@ func runDirected(e *emitter, st *stats, only int) {
 			}
 		}})
 	}
-	for _, qv := range []string{"nd", "nc"} {
+	for _, qv := range []string{"nd", "nc", "nh", "td"} {
 		qv := qv
+		if onlyPrefix == "" && (qv == "nh" || qv == "td") {
+			continue // (the fetch profiles keep their two)
+		}
 		scenarios = append(scenarios, sc{name: "apifault " + qv, run: func(w *world) []op {
 			t := w.addTrig(newSimple(0, futNS))
 			u := w.addTrig(newSimple(0, futNS))
@@ -987,6 +1080,14 @@ func runDirected(e *emitter, st *stats, only int) {
 				pf(w.opKey('P', "b", "g")), w.opKeys(), // Push fails inside PauseJob: error (the entry is lost)
 				w.opSchedule("b", "g", false, true, u, false),
 				pf(w.opKey('R', "b", "g")), w.opKeys(),
+				// ScheduleJob with Replace over a registered key while the queue fails: the call hands the error back and the
+				// job that was registered stays (an error leaves the registry unchanged)
+				w.opSchedule("c", "g", false, false, t, false),
+				pf(w.opSchedule("c", "g", true, false, u, false)), w.opKey('G', "c", "g"), w.opKeys(),
+				rf(w.opSchedule("c", "g", true, false, u, false)), w.opKey('G', "c", "g"),
+				w.opKey('P', "c", "g"),
+				pf(w.opSchedule("c", "g", true, true, t, false)), w.opKey('G', "c", "g"),
+				pf(w.opSchedule("c", "g", false, false, t, false)), w.opKey('G', "c", "g"), w.opKeys(),
 			}
 		}})
 	}
@@ -1075,6 +1176,9 @@ func runDirected(e *emitter, st *stats, only int) {
 	for i, s := range scenarios {
 		if aborted {
 			return
+		}
+		if !strings.HasPrefix(s.name, onlyPrefix) {
+			continue
 		}
 		if only >= 0 && only != e.seq {
 			e.seq++
@@ -1165,18 +1269,24 @@ func cmdSteps(args []string) {
 	var wg sync.WaitGroup
 	switch args[0] {
 	case "api-quick":
+		runDirected(e, st, only, "apifault")
 		runExhaustive(e, st, "small", 4, quiet, only)
 		runExhaustive(e, st, "small", 3, []string{"sd", "sh", "sc"}, only)
 		runExhaustive(e, st, "collide", 3, quiet, only)
+		runExhaustive(e, st, "reuse", 4, quiet, only)
+		runExhaustive(e, st, "reuse", 3, []string{"sd", "sh", "sc"}, only)
 		runExhaustive(e, st, "extreme", 3, quiet, only)
 		runExhaustive(e, st, "extreme-started", 2, []string{"sd", "sh", "sc"}, only)
 		runExhaustive(e, st, "full", 2, all, only)
 		runExhaustive(e, st, "full", 1, all, only)
 		runRandom(e, st, r, 600, 60, false, all, only)
 	case "api-thorough":
+		runDirected(e, st, only, "apifault")
 		runExhaustive(e, st, "small", 4, quiet, only)
 		runExhaustive(e, st, "small", 4, []string{"sd", "sh", "sc", "tc", "th"}, only)
 		runExhaustive(e, st, "collide", 4, quiet, only)
+		runExhaustive(e, st, "reuse", 5, []string{"nd", "nc", "nh"}, only)
+		runExhaustive(e, st, "reuse", 4, []string{"sd", "sh", "sc", "td"}, only)
 		runExhaustive(e, st, "extreme", 3, []string{"nd", "nc", "nh", "td", "tc", "th"}, only)
 		runExhaustive(e, st, "extreme-started", 3, []string{"sd", "sh", "sc"}, only)
 		runExhaustive(e, st, "full4", 3, []string{"nd", "nc", "nh"}, only)
@@ -1184,10 +1294,10 @@ func cmdSteps(args []string) {
 		runExhaustive(e, st, "full", 1, all, only)
 		runRandom(e, st, r, 6000, 60, false, all, only)
 	case "fetch-quick":
-		runDirected(e, st, only)
+		runDirected(e, st, only, "")
 		runRandom(e, st, r, 1500, 40, true, []string{"nd", "nc", "nh"}, only)
 	case "fetch-thorough":
-		runDirected(e, st, only)
+		runDirected(e, st, only, "")
 		runRandom(e, st, r, 20000, 40, true, []string{"nd", "nc", "nh"}, only)
 		runRandom(e, st, r, 2000, 200, true, []string{"nd", "nc", "nh"}, only)
 	default:
